@@ -207,8 +207,10 @@ class FnSpec:
             self.props |= set(props)
         return self
 
-    def loop(self, header, inv, modifies=None, note="", post=None):
-        self.loops.append(LoopSpec(header, inv, modifies, note, post))
+    def loop(self, header, inv, modifies=None, note="", post=None, forget=False):
+        l = LoopSpec(header, inv, modifies, note, post)
+        l.forget = forget  # drop earlier loops' invariant assumptions at this loop's cut
+        self.loops.append(l)
         return self
 
 
